@@ -83,6 +83,14 @@ pub struct CommitEntry {
     pub base_epoch: u64,
 }
 
+/// A successor group (re-init or branch) as its creator holds it, with the Welcome messages for the others.
+pub struct SuccEntry {
+    pub kind: String,
+    pub group: mls_rs::Group<Cfg>,
+    pub welcomes: Vec<MlsMessage>,
+    pub joined: Vec<mls_rs::Group<Cfg>>,
+}
+
 #[derive(Default)]
 pub struct Bij {
     pub fwd: HashMap<String, Vec<u8>>,
@@ -139,6 +147,7 @@ pub struct World {
     pub written: HashMap<String, mls_rs::group::verif::VerifState>,
     pub joined_with: HashMap<String, Vec<u8>>,
     pub bad_clients: HashMap<String, Client<Cfg>>,
+    pub succ: Vec<SuccEntry>,
 }
 
 pub fn make_client(
@@ -237,6 +246,7 @@ impl World {
             written: HashMap::new(),
             joined_with: HashMap::new(),
             bad_clients: HashMap::new(),
+            succ: vec![],
         };
         for n in ["bad-expired", "rejected"] {
             let (client, ..) = make_client(n, w.opts.backends[0], &w.opts, &w.rec, None, None);
@@ -303,6 +313,8 @@ pub fn classify(e: &MlsError) -> String {
         InvalidLifetime { .. } => "err:rule:kp-lifetime",
         CryptoProviderError(_) => "err:decrypt",
         GroupUsedAfterReInit => "err:frozen",
+        NotASubgroup => "err:not-subgroup",
+        PendingReInitNotFound => "err:no-reinit",
         InvalidConfirmationTag => "err:conf-tag",
         InvalidSignature => "err:auth",
         InvalidMembershipTag => "err:auth",
